@@ -29,7 +29,6 @@ from .flatten import netcdf_flatten
 from .flatten.config import (
     flattener_attribute_map,
     flattener_dimension_map,
-    flattener_separator,
     flattener_variable_map,
 )
 
@@ -1386,20 +1385,17 @@ class NetCDFRead(IORead):
             if has_groups:
                 # Replace the flattened variable name with its
                 # absolute path.
-                ncvar_flat = ncvar
                 ncvar = flattener_variables[ncvar]
 
                 groups = tuple(ncvar.split("/")[1:-1])
 
                 if groups:
-                    # This variable is in a group. Remove the group
-                    # structure that was prepended to the netCDF
-                    # variable name by the netCDF flattener.
-                    ncvar_basename = re.sub(
-                        f"^{flattener_separator.join(groups)}{flattener_separator}",
-                        "",
-                        ncvar_flat,
-                    )
+                    # This variable is in a group. The basename is
+                    # taken from the absolute path, because the
+                    # flattened name need not be the group names and
+                    # the basename joined up (long names are hashed,
+                    # clashing names get a counter).
+                    ncvar_basename = ncvar.split("/")[-1]
 
                     # ------------------------------------------------
                     # Group attributes. Note that, currently,
@@ -1455,18 +1451,14 @@ class NetCDFRead(IORead):
             if has_groups:
                 # Replace the flattened variable name with its
                 # absolute path.
-                ncdim_flat = ncdim
-                ncdim = flattener_dimensions[ncdim_flat]
+                ncdim = flattener_dimensions[ncdim]
 
                 groups = tuple(ncdim.split("/")[1:-1])
 
                 if groups:
-                    # This dimension is in a group.
-                    ncdim_basename = re.sub(
-                        f"^{flattener_separator.join(groups)}{flattener_separator}",
-                        "",
-                        ncdim_flat,
-                    )
+                    # This dimension is in a group. The basename is
+                    # taken from the absolute path (see above).
+                    ncdim_basename = ncdim.split("/")[-1]
 
             dimension_groups[ncdim] = groups
             dimension_basename[ncdim] = ncdim_basename
@@ -10637,16 +10629,11 @@ class NetCDFRead(IORead):
         None, (12, 324, 432)
 
         """
-        nc = self.read_vars["variable_dataset"][ncvar]
-
-        # 'nc' is the flattened dataset, so replace an 'ncvar' string
-        # that contains groups (e.g. '/forecast/tas') with its
-        # flattened version (e.g. 'forecast__tas').
-        if ncvar.startswith("/"):
-            ncvar = ncvar[1:]
-            ncvar = ncvar.replace("/", flattener_separator)
-
-        var = nc[ncvar]
+        # The variable of the (flattened) dataset. Note that its name
+        # there can not be worked out from an 'ncvar' string that
+        # contains groups (e.g. '/forecast/tas' is usually, but not
+        # always, 'forecast__tas').
+        var = self.read_vars["variables"][ncvar]
         try:
             # netCDF4
             chunks = var.chunking()
